@@ -32,6 +32,7 @@ pub fn property() -> Property {
     add::<SOrswot>(&mut jobs, Disc::Fifo, &[], &[], 18000, 200_000, 0.03);
     add::<SMVReg>(&mut jobs, Disc::Any, &[], &[], 18000, 200_000, 0.03);
     add::<MapOrswot>(&mut jobs, Disc::Causal, &[Class::T1], &[Class::T1, Class::T4], 18000, 200_000, 0.03);
+    add::<MapMapOrswot>(&mut jobs, Disc::Causal, &[Class::T1], &[Class::T1, Class::T4], 12000, 100_000, 0.03);
     add::<MapMVReg>(&mut jobs, Disc::Causal, &[Class::T1, Class::T2, Class::T5], &[Class::T1, Class::T2, Class::T2b, Class::T5], 18000, 200_000, 0.03);
     add::<MapMapMVReg>(&mut jobs, Disc::Causal, &[Class::T1, Class::T2, Class::T5], &[Class::T1, Class::T2, Class::T2b, Class::T4, Class::T5], 12000, 100_000, 0.03);
     add::<SList>(&mut jobs, Disc::Causal, &[], &[], 12000, 100_000, 0.03);
